@@ -122,7 +122,7 @@ def earlier_kept(w):
     early = [it for it in w.outbuf.items if it.get('kind') == 'earlier']
     if not early:
         return z3.BoolVal(False)      # the buffer was cleared: what was queued earlier is gone
-    return z3.And(w.outbuf.abs == 0, z3.UGE(w.outbuf.len, early[0]['len']))
+    return z3.And(w.outbuf.abs == 0, early[0]['pos'] == 0, z3.UGE(w.outbuf.len, early[0]['len']))
 
 
 def new_items(w, prefilled=1):
